@@ -145,7 +145,9 @@ class EndpointParameterProcessor:
         If a path variable is not already defined as a parameter, it's added as a required string type.
         This also updates the param_details_map.
         """
-        url_vars = extract_url_variables(op.path)
+        # extract_url_variables returns a set: iterate in order of appearance in the path so that the
+        # generated signature does not depend on the process' hash seed
+        url_vars = sorted(extract_url_variables(op.path), key=lambda v: op.path.index("{" + v + "}"))
 
         # Make a copy to modify if necessary
         updated_params = list(current_params)
